@@ -71,6 +71,19 @@ func typeChanged(f *fit.File) bool {
 	return true
 }
 
+// refusingWriter accepts a few bytes and then fails.
+type refusingWriter struct{ left int }
+
+func (w *refusingWriter) Write(p []byte) (int, error) {
+	if len(p) > w.left {
+		n := w.left
+		w.left = 0
+		return n, fmt.Errorf("verif: writer refuses further data")
+	}
+	w.left -= len(p)
+	return len(p), nil
+}
+
 // checkInput runs the C07 relation on one input. accepted reports whether
 // Decode accepted x (otherwise the case is vacuous).
 func checkInput(rec *hx.Recorder, x []byte, be bool) (sig, msg string, ok, accepted bool) {
@@ -87,6 +100,16 @@ func checkInput(rec *hx.Recorder, x []byte, be bool) (sig, msg string, ok, accep
 		rec.Excluded("D13", 1)
 		rec.Known("D13", "input "+hx.Hex(x)+" decodes to a File whose type has no container")
 		return "", "", true, true
+	}
+	if len(x) > 0 && x[len(x)-1]%4 == 0 {
+		// for a quarter of the inputs (chosen by the input's last byte, so
+		// that a replay does the same) an Encode call that fails comes first:
+		// a second decoding of the input written to a writer that refuses
+		// data. What the next Encode writes must not depend on it.
+		if f0, e0 := fit.Decode(bytes.NewReader(x)); e0 == nil {
+			oracle.Catch(func() { _ = fit.Encode(&refusingWriter{left: 9}, f0, order(be)) })
+			rec.Class("re-encoded right after a failing Encode call", 1)
+		}
 	}
 	var out1 bytes.Buffer
 	var eerr error
